@@ -34,6 +34,7 @@ type Oblig struct {
 }
 
 type Frame struct {
+	spawned bool // body of a goroutine started with `go` (executed at the spawn point: sequentialisation)
 	fn    *ssa.Function
 	env   map[ssa.Value]SV
 	blk   *ssa.BasicBlock
@@ -60,6 +61,10 @@ type Path struct {
 	wfKnown  string
 	lets     map[string]SV
 	nforks   int
+	cellSV     map[string]SV // content of cells whose type is not modelled in the heap (function values)
+	waited     bool
+	spawnedAny bool
+	mutexes    []string
 	pendingExt string
 	prevH      string
 	anchors  []anchor
@@ -253,6 +258,11 @@ func (p *Path) clone() *Path {
 	for k, v := range p.lets {
 		q.lets[k] = v
 	}
+	q.cellSV = map[string]SV{}
+	for k, v := range p.cellSV {
+		q.cellSV[k] = v
+	}
+	q.mutexes = append([]string(nil), p.mutexes...)
 	q.anchors = append([]anchor(nil), p.anchors...)
 	q.freshSeq = map[string]int{}
 	for k, v := range p.freshSeq {
@@ -706,7 +716,7 @@ func (x *Exec) verifyFunc(fn *ssa.Function, ct *Contract) {
 		li.writes = x.loopWrites(li)
 	}
 	x.cur = fc
-	p := &Path{variants: map[int]string{}, freshT: map[string]bool{}, callOrd: map[string]int{}, lets: map[string]SV{}, freshSeq: map[string]int{}}
+	p := &Path{variants: map[int]string{}, freshT: map[string]bool{}, callOrd: map[string]int{}, lets: map[string]SV{}, freshSeq: map[string]int{}, cellSV: map[string]SV{}}
 	p.H0 = x.newHeap(p)
 	p.H = p.H0
 	x.addAnchor(p)
@@ -782,6 +792,20 @@ func (x *Exec) verifyFunc(fn *ssa.Function, ct *Contract) {
 					}
 				}
 			}
+		}
+	}
+	// allocs named after their variable (captured locals): the name denotes the cell, if unambiguous
+	allocs := map[string][]ssa.Value{}
+	for _, b := range fn.Blocks {
+		for _, in := range b.Instrs {
+			if a, ok := in.(*ssa.Alloc); ok && a.Comment != "" && a.Comment != "complit" && a.Comment != "varargs" && a.Comment != "new" {
+				allocs[a.Comment] = append(allocs[a.Comment], a)
+			}
+		}
+	}
+	for name, as := range allocs {
+		if len(as) == 1 {
+			seen[name] = map[ssa.Value]bool{as[0]: true}
 		}
 	}
 	for name, vs := range seen {
@@ -1341,6 +1365,13 @@ func (x *Exec) exitNormal(p *Path, results []SV, in ssa.Instruction) {
 			continue
 		}
 		env = env.with(lt.Name, sv)
+	}
+	if p.spawnedAny {
+		goal := "false"
+		if p.waited {
+			goal = "true"
+		}
+		x.oblig(p, "async/wait-before-return", goal, ct.Props, x.pos(in))
 	}
 	x.probe(p, "feasible/return")
 	if ct.PanicsIff != nil {
